@@ -185,7 +185,7 @@ func c02R1(p *core.Program, r *core.Report, pl *pipeline) {
 	// the parsed bytes are the assembled source
 	src, _ := core.Resolve(info, w.Body, parse[0].Args[2])
 	okSrc := false
-	if c, ok := ast.Unparen(src).(*ast.CallExpr); ok && core.CalleeName(info, c) == "(*bytes.Buffer).Bytes" {
+	if c, ok := ast.Unparen(src).(*ast.CallExpr); ok && (core.CalleeName(info, c) == "(*bytes.Buffer).Bytes" || core.CalleeName(info, c) == "(*bytes.Buffer).String") { // the buffer's content, as bytes or as a string: go/parser takes either
 		okSrc = true
 	}
 	r.Check(okSrc, rule, w, "what is parsed is the assembled source buffer", parse[0].Pos(), "ParseFile(_, _, src.Bytes(), _)", "ParseFile does not receive the bytes of the assembled source buffer")
